@@ -481,6 +481,8 @@ def cells(ctx, bits):
     idxs = [("int", i) for i in (-7, -6, -5, -2, -1, 0, 1, 2, 5, 6, 9)]
     cases.append(prog_of([("index", five, i) for i in idxs] + [("index", ("index", ("arrlit", [("int", 1), ("arrlit", [("int", 2), ("int", 3)])]), ("int", 2)), i) for i in idxs[3:8]]))
     bounds = idxs + [None, ("str", ""), ("str", "x"), ("oos", "nosuch"), ("bool", True)]
+    if ctx.tier == "quick":
+        bounds = [("int", i) for i in (-6, -5, -2, -1, 0, 1, 2, 5, 6)] + [None, ("str", "x"), ("oos", "nosuch")]
     for base in [five, ("str", "hello"), ("str", "h\u00e9llo"), ("str", ""), ("int", 3), ("maplit", [(("str", "a"), ("int", 1))]), ("oos", "nosuch"), ("arrlit", [])]:
         cases.append(prog_of([("slice", base, lo, hi) for lo in bounds for hi in bounds]))
     # indexed assignment / unset on arrays and auto-create below maps: each cell in its own function (a failing assignment
@@ -663,6 +665,27 @@ def oracle_table(rng):
               'func tick(): map { @calls["count"] += 1; return @calls } func two(map x, map y): map { return {"first": x["count"], "second": y["count"]} } $* = mapsum($*, two(tick(), tick())); $total = @calls["count"]'.replace("$* = mapsum($*, two(tick(), tick()))", "t = two(tick(), tick()); $first = t[\"first\"]; $second = t[\"second\"]"),
               [[("x", "5")], [("x", "7")]],
               [R(("x", I(5)), ("first", I(1)), ("second", I(2)), ("total", I(2))), R(("x", I(7)), ("first", I(3)), ("second", I(4)), ("total", I(4)))]))
+    # arrays (reference-main-arrays.md): 1-up, negative aliases, inclusive slices, out-of-bounds reads absent / slices trimmed,
+    # auto-extend by one, unset shifts, by value; auto-create below maps makes maps even for int keys (reference-main-maps.md)
+    A = lambda *xs: ("arr", list(xs))
+    t.append(("array-1-up-and-negative-aliases", 'end { x = [10, 20, 30, 40, 50]; print x[1]; print x[5]; print x[-1]; print x[-5]; print x[2] == x[-4]; print is_absent(x[6]) . is_absent(x[0]) . is_absent(x[-6]) }', [],
+              [("s", "10"), ("s", "50"), ("s", "50"), ("s", "10"), ("s", "true"), ("s", "truetruetrue")]))
+    t.append(("array-inclusive-slices", 'end { x = [10, 20, 30, 40, 50]; emit1 {"a": x[2:3], "b": x[-2:-1], "c": x[4:9], "d": x[3:2], "e": x[:2], "f": x[4:], "g": "hello"[2:3], "h": "hello"[-2:-1]} }', [],
+              [R(("a", A(I(20), I(30))), ("b", A(I(40), I(50))), ("c", A(I(40), I(50))), ("d", A()), ("e", A(I(10), I(20))), ("f", A(I(40), I(50))), ("g", S("el")), ("h", S("lo")))]))
+    t.append(("array-auto-extend-by-one", 'end { x = []; x[1] = "a"; x[2] = "b"; x[length(x) + 1] = %d; emit1 {"x": x, "n": length(x)} }' % k, [], [R(("x", A(S("a"), S("b"), I(k))), ("n", I(3)))]))
+    t.append(("array-assign-index-zero-is-error", 'end { x = [1, 2, 3]; x[0] = 9; print "no" }', [], "error"))
+    t.append(("array-assign-before-start-is-error", 'end { x = [1, 2, 3]; x[-4] = 9; print "no" }', [], "error"))
+    t.append(("array-assign-negative-alias", 'end { x = [1, 2, 3]; x[-1] = %d; x[-3] = "f"; emit1 {"x": x} }' % k, [], [R(("x", A(S("f"), I(2), I(k))))]))
+    t.append(("array-unset-shifts", 'end { x = [1, 2, 3, 4]; unset x[2]; emit1 {"x": x}; unset x[-1]; emit1 {"x": x} }', [], [R(("x", A(I(1), I(3), I(4)))), R(("x", A(I(1), I(3))))]))
+    t.append(("array-for-loops", 'end { for (e in [%d, "b"]) { print e } for (i, e in ["x", "y"]) { print i . ":" . e } }' % k, [], [("s", str(k)), ("s", "b"), ("s", "1:x"), ("s", "2:y")]))
+    t.append(("array-by-value-arguments", 'func f(arr a) { a[1] = 99; a[length(a) + 1] = 7; unset a[2]; return a } end { x = [%d, 2, 3]; y = f(x); emit1 {"inner": y, "outer": x} }' % k, [],
+              [R(("inner", A(I(99), I(3), I(7))), ("outer", A(I(k), I(2), I(3))))]))
+    t.append(("array-by-value-assignment", 'end { x = [1, [2, 3]]; y = x; y[2][1] = %d; @o = x; x[1] = 0; emit1 {"x": x, "y": y, "o": @o} }' % k, [],
+              [R(("x", A(I(0), A(I(2), I(3)))), ("y", A(I(1), A(I(k), I(3)))), ("o", A(I(1), A(I(2), I(3)))))]))
+    t.append(("auto-create-int-key-makes-map", 'end { @m[1][2] = %d; x = [1]; x[1]["k"] = 5; x[2]["j"] = 6; emit1 {"m": @m, "x": x} }' % k, [],
+              [R(("m", ("map", [("1", ("map", [("2", I(k))]))])), ("x", A(("map", [("k", I(5))]), ("map", [("j", I(6))]))))]))
+    t.append(("array-type-gate", 'end { arr a = [1]; a[2] = 2; a = {} }', [], "error"))
+    t.append(("array-type-gate-accepts", 'end { arr a = [1]; a[2] = 2; var v = [3]; emit1 {"a": a, "v": v, "t": typeof(a)} }', [], [R(("a", A(I(1), I(2))), ("v", A(I(3))), ("t", S("array")))]))
     t.append(("emit-by-names-is-grouping", '@sum[$a][$b] = $c; end { emit @sum, "a", "b" }', [[("a", "x"), ("b", "p"), ("c", "1")], [("a", "y"), ("b", "p"), ("c", "2")], [("a", "x"), ("b", "q"), ("c", "3")]],
               None))
     return t
